@@ -14,6 +14,13 @@ def _bits(scn):
     return zlib.crc32(json.dumps(scn, sort_keys=True).encode())
 
 
+def variants_quick(scn):
+    """quick tier: two of the three runs, rotating over the scenarios"""
+    v = variants(scn)
+    drop = _bits(scn) % 3
+    return [x for n, x in enumerate(v) if n != drop]
+
+
 def variants(scn):
     """3 runs per scenario: plain values and keys on TestScheduler (hot source); falsy values AND falsy keys
     (None, 0, '', ()) with a cold source; HistoricalScheduler (datetime clock) with falsy keys; the call form
@@ -45,11 +52,10 @@ def runs_for(tier):
         d.update(kw)
         return d
     if tier == "quick":
-        return [("group_by, partition*", c(["group_by", "partition", "partition_indexed"], 2, 3)),
-                ("group_by_until", c(["group_by_until"], 2, 3, ElemMode="none", Terms={"C", "U"})),
-                # durations derived from the group itself: a group expires right after its n-th element
-                ("group_by_until content-dependent durations", c(["group_by_until"], 3, 2, Durs=set(), DCounts={1, 2},
-                                                                 ElemMode="none")),
+        return [("group_by, partition*", c(["group_by", "partition", "partition_indexed"], 2, 3, LongLen=3)),
+                # timed durations, and durations derived from the group itself (a group expires right after its n-th
+                # element)
+                ("group_by_until", c(["group_by_until"], 2, 3, ElemMode="none", Terms={"C", "U"}, Durs={1}, DCounts={1, 2})),
                 # fault dimension (C09): key / element mapper / predicate raises ...
                 ("faults group_by, partition*", c(["group_by", "partition", "partition_indexed"], 2, 2, LongLen=3, Faults=True,
                                                   Terms={"C", "U"})),
@@ -58,7 +64,7 @@ def runs_for(tier):
                                             Faults=True, Terms={"U"})),
                 # dispose dimension (C03): the subscriber disposes the result and every group subscription at any instant
                 ("dispose group_by_until, partition", c(["group_by_until", "partition"], 2, 2, LongLen=2, Durs={1},
-                                                        ElemMode="none", Terms={"C", "U"}, Disposes=True))]
+                                                        ElemMode="none", Terms={"U"}, Disposes=True))]
     return [("group_by, partition* (every table)", c(["group_by", "partition", "partition_indexed"], 2, 3, LongLen=5,
                                                     KeyMode="all", ElemMode="all")),
             ("group_by 3 values, 3 keys", c(["group_by"], 2, 3, NVals=3, NKeys=3, LongLen=4)),
@@ -88,33 +94,40 @@ def sampled_runs(tier):
 
 def run(tier):
     ck = core.Check("C19", tier)
-    exported = wc.export_runs(ck, "OpsGroup", wc.GROUP_INVS, runs_for(tier), par=4,
-                              timeout=240 if tier == "quick" else 3000, light=tier == "quick")
-    wc.replay_all(ck, "group", exported, variants, procs=8)
-    ck.exhaustive = True
-    rng = random.Random(ck.seed + 19)
-    nsampled = 0
-    for label, op, c, n in sampled_runs(tier):
-        e = wc.export_sampled(ck, "OpsGroup", wc.GROUP_INVS, label, c, wc.sample_group_scns(rng, op, c, n))
-        exported.append(e)
-        nsampled += wc.replay_all(ck, "group", [e], variants, procs=8)
-    if nsampled:
-        ck.note("sampled_large_instance_runs", nsampled)
-    hist, per, faulty = collections.Counter(), collections.Counter(), 0
-    nt = 0
-    for label, c, groups in exported:
+    hist, per = collections.Counter(), collections.Counter()
+    stats = {"nt": 0, "faulty": 0, "samples": []}
+    vf = variants_quick if tier == "quick" else variants
+
+    def digest(e):
+        label, c, groups = e
+        wc.replay_all(ck, "group", [e], vf, procs=8)
         for scn, allowed in groups:
             per[scn["op"]] += 1
             hist[min(len(allowed), 9)] += 1
-            nt += 1 if nontrivial(scn, allowed) else 0
-            faulty += 1 if wc._group_fault(scn) else 0
+            stats["nt"] += 1 if nontrivial(scn, allowed) else 0
+            stats["faulty"] += 1 if wc._group_fault(scn) else 0
+        if groups and len(stats["samples"]) < 5:
+            g = groups[len(groups) // 2]
+            stats["samples"].append({"scn": g[0], "allowed": g[1][:2]})
+
+    for e in wc.export_runs(ck, "OpsGroup", wc.GROUP_INVS, runs_for(tier), par=4,
+                            timeout=240 if tier == "quick" else 3000, light=tier == "quick"):
+        digest(e)
+    ck.exhaustive = True
+    rng = random.Random(ck.seed + 19)
+    before = ck.impl
+    for label, op, c, n in sampled_runs(tier):
+        digest(wc.export_sampled(ck, "OpsGroup", wc.GROUP_INVS, label, c, wc.sample_group_scns(rng, op, c, n)))
+    if ck.impl > before:
+        ck.note("sampled_large_instance_runs", ck.impl - before)
+    nt, faulty = stats["nt"], stats["faulty"]
     ck.nontrivial = nt
     ck.rule = ("every source timeline over NVals value tokens (group_by_until: 0..MaxLen elements at instants 1..MaxT; "
                "group_by / partition*: 0..LongLen elements) ending in completion / error / nothing x key tables (few and "
                "many keys) x element mappers (none, rotate, all tables in thorough) x predicate tables x duration "
                "patterns (per created group, incl. never) enumerated by TLC on OpsGroup.tla with every same-instant tie "
-               "order (element vs. expiry of its group); each scenario is run 3 times on the real operators (plain, "
-               "falsy values + falsy keys, datetime clock); non-trivial = at least two groups / both outputs got an element")
+               "order (element vs. expiry of its group); each scenario is run 3 times (quick: 2 of the 3, rotating) on the "
+               "real operators (plain, falsy values + falsy keys, datetime clock); non-trivial = at least two groups / both outputs got an element")
     ck.note("scenarios", sum(per.values()))
     ck.note("scenarios_per_operator", dict(per))
     ck.note("scenarios_with_a_raising_function_or_failing_duration (C09 dimension)", faulty)
@@ -126,10 +139,8 @@ def run(tier):
                              "element) was handed out before the failure (both allowed)",
                              "subject_mapper argument (not generated)",
                              "source subscription interval, except in dispose scenarios (closed at the dispose instant)"])
-    for label, c, groups in exported[:5]:
-        if groups:
-            g = groups[len(groups) // 2]
-            ck.sample({"scn": g[0], "allowed": g[1][:2]})
+    for x in stats["samples"]:
+        ck.sample(x)
     ck.assumptions = [
         "TestScheduler / HistoricalScheduler run actions in due order, FIFO among equal due times (checked separately: C28)",
         "the sink subscribes to every group synchronously at hand-out",
